@@ -329,7 +329,7 @@ func pmGenOps(t *rapid.T, maxOps int, hostile bool) []pmOp {
 			}
 		}
 		return op
-	}), 0, maxOps).Draw(t, "ops")
+	}), rapid.SampledFrom([]int{0, 0, 8, 30, 80}).Draw(t, "minops"), maxOps).Draw(t, "ops")
 }
 
 // pmLabels computes the class labels of a map + kernel placement.
